@@ -384,7 +384,7 @@ pub fn parser_stream(
         hs::log(hs::LogKind::ParserDeliver(i));
         it
     });
-    if lazy_end {
+    let inner: LocalBoxStream<'static, parser::Result<gherkin::Feature>> = if lazy_end {
         body.chain(
             stream::once(async move {
                 gate(format!("parse#end{n}")).await;
@@ -395,6 +395,32 @@ pub fn parser_stream(
         .boxed_local()
     } else {
         body.boxed_local()
+    };
+    StrictEnd { inner, ended: false }.boxed_local()
+}
+
+/// A parser stream is not obliged to be fused: polled again after it has
+/// ended, this one never answers again (and the poll is logged).
+struct StrictEnd {
+    inner: LocalBoxStream<'static, parser::Result<gherkin::Feature>>,
+    ended: bool,
+}
+
+impl futures::Stream for StrictEnd {
+    type Item = parser::Result<gherkin::Feature>;
+    fn poll_next(
+        mut self: std::pin::Pin<&mut Self>,
+        cx: &mut std::task::Context<'_>,
+    ) -> std::task::Poll<Option<Self::Item>> {
+        if self.ended {
+            hs::log(hs::LogKind::ParserPolledAfterEnd);
+            return std::task::Poll::Pending;
+        }
+        let r = self.inner.poll_next_unpin(cx);
+        if matches!(r, std::task::Poll::Ready(None)) {
+            self.ended = true;
+        }
+        r
     }
 }
 
